@@ -176,6 +176,15 @@ func (e *CEnv) resolveType(ct *CType) types.Type {
 	}
 	if i := strings.Index(name, "."); i >= 0 {
 		pn, tn := name[:i], name[i+1:]
+		// the package's own name wins over an import of the same name
+		// (crypto/ecdh imports crypto/internal/fips140/ecdh)
+		if e.pkg != nil && e.pkg.Name() == pn {
+			if o := e.pkg.Scope().Lookup(tn); o != nil {
+				if _, ok := o.(*types.TypeName); ok {
+					return o.Type()
+				}
+			}
+		}
 		if ip := e.v.eng.importedPkg(e.pkg, pn); ip != nil {
 			if o := ip.Scope().Lookup(tn); o != nil {
 				if _, ok := o.(*types.TypeName); ok {
@@ -1219,7 +1228,12 @@ func (e *CEnv) trCall(x *CExpr) CVal {
 	if gf, ok := v.eng.ghostFields[name]; ok {
 		h, key := e.ghostFieldHeap(gf, x.Args[0])
 		rty := e.resolveType(gf.Result)
-		return CVal{v.hsel(e.st, h, key), rty}
+		val := v.hsel(e.st, h, key)
+		if rty == bstrType && v.inQuant == 0 && val.Size() < 60 {
+			// byte-string values have a non-negative length
+			e.st.assume(Le(IntLit(0), e.bLen(val)))
+		}
+		return CVal{val, rty}
 	}
 	switch name {
 	case "funcof": // function value identity: funcof("pkg/path.Name")
